@@ -8,11 +8,11 @@ rm -rf $W; git -C /repo worktree prune; git -C /repo worktree add -q --detach $W
 mkdir -p $OUT
 cd $W
 cp $SRC/demo_test.go $PKG/zz_seed_demo_test.go
-go test -count=1 -run 'Demo|Seed|C[0-9][0-9]' ./$PKG/ > $OUT/demo_without.log 2>&1; R0=$?
+go test $TAGS -count=1 -run "${RUNRE:-Demo|Seed|C[0-9][0-9]}" ./$PKG/ > $OUT/demo_without.log 2>&1; R0=$?
 if ! git apply $SRC/patch.diff 2>/dev/null; then git apply -3 $SRC/patch.diff 2>$OUT/apply.log || { echo "$P-$K APPLY-FAILED"; cd /; git -C /repo worktree remove --force $W; exit 3; }; fi
 git diff -- . ':!*zz_seed_demo_test.go' > $OUT/patch.diff
 go build ./... > $OUT/build.log 2>&1; RB=$?
-go test -count=1 -run 'Demo|Seed|C[0-9][0-9]' ./$PKG/ > $OUT/demo_with.log 2>&1; R1=$?
+go test $TAGS -count=1 -run "${RUNRE:-Demo|Seed|C[0-9][0-9]}" ./$PKG/ > $OUT/demo_with.log 2>&1; R1=$?
 rm -f $PKG/zz_seed_demo_test.go
 go test -count=1 -vet=off ./pkg/... ./cmd/... > $OUT/suite_with.log 2>&1; RS=$?
 cp $SRC/demo_test.go $OUT/demo_test.go; cp $SRC/NOTES.md $OUT/NOTES.md
